@@ -181,7 +181,7 @@ theorem siteEvents_eq (tbl : List C11LockRow) (h : c11TableOk tbl = true) (r : C
     siteEvents tbl t r = expand (clsT tbl) t (rowOp r) := by
   have hrow : c11RowOk tbl r = true := (List.all_eq_true.mp h) r hr
   simp only [c11RowOk, Bool.and_eq_true] at hrow
-  simp [siteEvents, hrow.1]
+  simp [siteEvents, hrow.1.1]
 
 theorem flatMap_congr' {α β} (f g : α → List β) : ∀ (l : List α), (∀ a ∈ l, f a = g a) → l.flatMap f = l.flatMap g := by
   intro l
